@@ -31,15 +31,28 @@ def wav_to_nu(wav_um):
     return [C_UM_HZ / w for w in wav_um]
 
 
+CONF_FLAGS = [('yes', 'no'), ('Yes', 'No'), ('YES', 'NO'), ('y', 'n'), ('Y', 'N')]
+N_CONF_STYLES = 2 * len(CONF_FLAGS)
+
+
 def write_conf(model_dir, aperture_dependent, logd_step=0.02, version=None, name='generated',
-               length_subdir=0):
+               length_subdir=0, style=0):
+    """models.conf as the documentation shows it (style 0), or in any other spelling the package reader takes as the same
+    declaration: yes/no in any letter case or as y/n, no blanks around '=', comment and blank lines, another key order."""
+    yes, no = CONF_FLAGS[int(style) % len(CONF_FLAGS)]
+    lines = [('name', '%s' % name), ('length_subdir', '%d' % length_subdir),
+             ('aperture_dependent', yes if aperture_dependent else no), ('logd_step', '%r' % float(logd_step))]
+    if version is not None:
+        lines.append(('version', '%d' % version))
     with open(os.path.join(model_dir, 'models.conf'), 'w') as f:
-        f.write('name = %s\n' % name)
-        f.write('length_subdir = %d\n' % length_subdir)
-        f.write('aperture_dependent = %s\n' % ('yes' if aperture_dependent else 'no'))
-        f.write('logd_step = %r\n' % float(logd_step))
-        if version is not None:
-            f.write('version = %d\n' % version)
+        if (int(style) // len(CONF_FLAGS)) % 2 == 0:
+            for k, v in lines:
+                f.write('%s = %s\n' % (k, v))
+        else:
+            f.write('# model package\n\n')
+            for k, v in reversed(lines):
+                f.write('%s=%s\n' % (k, v))
+                f.write('\n# aperture_dependent = %s\n' % (no if aperture_dependent else yes))
 
 
 def write_parameters(model_dir, names, params, order=None, width=30, filename='parameters.fits', fmt='D', gz=False, name_pos=0):
